@@ -26,9 +26,11 @@ def queries(tier):
     for L in ([0, 1] if tier == 'quick' else [0, 1, 2]):
         qs.append(dict(name='split_len%d' % L, unit='split64', harness='h_split.c', defs={'LEN': L}, unwind=L + 3, timeout=1500, mem_gb=10,
                        tv_runs=300, desc='split_args on %d symbolic bytes vs reference shell-style tokenizer' % L, bounds='input length %d, all byte values but NUL' % L))
-    # cheap cell for the empty quoted argument: both bytes are the same (symbolically chosen) quote character: '' or ""
-    qs.append(dict(name='split_quotes', unit='split64', harness='h_split.c', defs={'LEN': 2, 'QUOTES': 1}, unwind=5, timeout=600, mem_gb=6,
-                   tv_runs=20, desc="split_args on '' and \"\" (quote character symbolic) vs reference tokenizer", bounds='the two inputs of length 2 made of one repeated quote character'))
+    # cheap concrete cells for the empty quoted argument ('' and ""): everything folds, sub-second; the symbolic LEN=2 query
+    # above (thorough tier, minutes) is the real check, these keep the defect visible in the quick tier
+    for q, nm in ((39, 'single'), (34, 'double')):
+        qs.append(dict(name='split_empty_%s_quotes' % nm, unit='split64', harness='h_split.c', defs={'LEN': 2, 'QUOTES': q}, unwind=5, timeout=600, mem_gb=6,
+                       tv_runs=2, desc='split_args on the concrete input of two %s quote characters vs reference tokenizer' % nm, bounds='one concrete input'))
     # token kinds: (kind, length); see h_classify.c
     S0, S1, S2 = (0, 0), (0, 1), (0, 2)
     LO1, LO2, LO3 = (1, 3), (1, 4), (1, 5)      # "--" + 1..3 symbolic bytes  (TOKW must be >= 5)
